@@ -359,8 +359,19 @@ def run_forest(case, ctx):
         ctx.check(all(pid[i] == -1 for i in roots), "forest/every-root-stays-a-root",
                   lambda: f"root rows {roots} have parents {[pid[i] for i in roots]} (base {base})")
         if via == "read_swc":
-            ctx.check(any("not a simple tree" in m for m in msgs), "forest/several-roots-warning",
-                      lambda: f"warnings: {msgs}")
+            # "with a warning": some warning that the same rows would not draw if all roots but the first were linked
+            # to it (whatever its category or wording)
+            import re
+
+            pids1 = [pids0[i] if p[i] >= 0 or i == roots[0] else ids0[roots[0]] for i in range(n)]
+            txt1 = "".join(f"{ids0[i]} {ty[i]} {xyz[i][0]} {xyz[i][1]} {xyz[i][2]} {r[i]} {pids1[i]}\n" for i in range(n))
+            with warnings.catch_warnings(record=True) as w1:
+                warnings.simplefilter("always")
+                ctx.lib("forest/read_swc[single-rooted control]", read_swc, io.StringIO(txt1), reset_index=first_row_root)
+            norm = lambda m: re.sub(r"0x[0-9a-fA-F]+", "0x", m)  # noqa
+            control = {norm(str(x.message)) for x in w1}
+            ctx.check(any(norm(m) not in control for m in msgs), "forest/several-roots-warning",
+                      lambda: f"warnings: {msgs}; the single-rooted control draws: {sorted(control)}")
     else:
         ctx.check(pid[roots[0]] == -1, "forest/first-root-kept", lambda: f"first root row {roots[0]} has parent {pid[roots[0]]}")
         ctx.check(sum(1 for q in pid if q == -1) == 1, "forest/exactly-one-root",
@@ -374,9 +385,6 @@ def run_forest(case, ctx):
                 k += 1
                 ctx.check(k <= n, "forest/result-is-acyclic", lambda: f"row {i} never reaches a root: {pid}")
             ctx.check(j == roots[0], "forest/every-node-reaches-the-first-root", f"row {i} ends at {j}")
-        if via == "read_swc":
-            ctx.check(not any("not a simple tree" in m for m in msgs), "forest/no-warning-after-repair",
-                      lambda: f"warnings: {msgs}")
 
 
 SUBCHECKS = [
